@@ -849,6 +849,15 @@ impl Exec {
                 hits.push(("C11", format!("member {:?} is live after only {} fresh heartbeat report(s)", id.node_id, reports)));
                 hits.push(("C10", format!("member {:?} is live after only {} fresh heartbeat report(s)", id.node_id, reports)));
             }
+            // C10: live needs at least two usable observations, i.e. one interval <= max_interval
+            // between consecutive fresh heartbeats since the member was last found dead
+            if live.contains(id) {
+                let usable = ctx.streak.get(id).map(|v| v.iter().filter(|x| **x <= maxi).count()).unwrap_or(0);
+                if usable == 0 {
+                    hits.push(("C10", format!("member {:?} is reported live without two usable heartbeat observations since it was last found dead", id.node_id)));
+                    hits.push(("C11", format!("member {:?} is reported live without two usable heartbeat observations since it was last found dead", id.node_id)));
+                }
+            }
             // C11: steady fresh heartbeats are never flagged
             if let Some(ivs) = ctx.streak.get(id) {
                 if !ivs.is_empty() && *reports >= 2 {
